@@ -14,7 +14,7 @@ from vf.values import show
 PID = "C09"
 MODES = ["single", "session", "percall"]
 SHAPES = ["truthy", "falsy_len", "falsy_bool", "eq_always_true", "eq_always_false"]
-CREATORS = ["none", "counting", "fails_first", "wrong_type"]
+CREATORS = ["none", "counting", "fails_first", "wrong_type", "returns_subclass"]
 
 
 class Registry:
@@ -61,6 +61,12 @@ def make_class(mode, shape, creator, reg, server):
                 reg.creator_failures += 1
                 raise RuntimeError("creator fails the first time")
             return clazz()
+    elif creator == "returns_subclass":
+        sub = type(cls.__name__ + "Sub", (cls,), {})
+
+        def cr(clazz):
+            reg.creator_calls += 1
+            return sub()        # a factory may hand out an instance of a subclass: it is an instance of the registered class
     elif creator == "wrong_type":
         def cr(clazz):
             reg.creator_calls += 1
